@@ -6,8 +6,9 @@ FormulaManager (node invariant: built by a constructor, accepted by the type
 checker) together with the definition of type_of / val / fv at that node."""
 import z3
 
-from . import sorts as S
+from . import sorts as _sorts
 from .sorts import *  # noqa
+from .sorts import JOURNAL
 
 
 # --------------------------------------------------------------------------
@@ -35,7 +36,7 @@ def in_domain(v, t):
         z3.Implies(t == IntT, Val.is_VInt(v)),
         z3.Implies(t == RealT, Val.is_VReal(v)),
         z3.Implies(t == StrT, Val.is_VStr(v)),
-        z3.Implies(Ty.is_BVT(t), z3.And(Val.is_VBV(v), vbv(v) >= 0, vbv(v) < pow2(Ty.bvw(t)))),
+        z3.Implies(Ty.is_BVT(t), z3.And(Val.is_VBV(v), vbv(v) >= 0, vbv(v) < pow2.quiet(Ty.bvw(t)))),
         z3.Implies(Ty.is_ArrT(t), Val.is_VArr(v)),
         z3.Implies(Ty.is_CustomT(t), Val.is_VU(v)),
     )
@@ -388,30 +389,6 @@ def sem(Kop, n, av, at):
     return None
 
 
-def array_axioms():
-    """Read-over-write instances for the AV terms created on this path."""
-    stores = list(astore.apps.values())
-    consts = list(acst.apps.values())
-    sels = list(asel.apps.values())
-    out = []
-    idxs = {}
-    for s in stores:
-        idxs[s.arg(1).get_id()] = s.arg(1)
-    for s in sels:
-        idxs[s.arg(1).get_id()] = s.arg(1)
-    idxs = list(idxs.values())[:8]
-    for s in stores:
-        a, i, v = s.arg(0), s.arg(1), s.arg(2)
-        out.append(asel.f(s, i) == v)
-        for j in idxs:
-            if not j.eq(i):
-                out.append(z3.Implies(j != i, asel.f(s, j) == asel.f(a, j)))
-    for c in consts:
-        for j in idxs:
-            out.append(asel.f(c, j) == c.arg(0))
-    return out
-
-
 # --------------------------------------------------------------------------
 def unfold(t, Kop, k):
     """Facts for node term t with op(t)==Kop and nargs(t)==k (k concrete)."""
@@ -433,6 +410,10 @@ def unfold(t, Kop, k):
         f.append(fv(t) == z3.SetDifference(fv(args_[0]), qvset(t)))
         f.append(isconst(t) == False)
         f.append(nqv(t) >= 1)
+        # binder law: Q V. b  ~  Q (V /\ dep(b)). b ; quantifying over no relevant symbol is the identity
+        sb = semf(args_[0])
+        rel = z3.SetIntersect(qvset(t), dep(sb))
+        f.append(semf(t) == z3.If(rel == z3.EmptySet(Node), sb, qsem(K(Kop), rel, sb)))
     elif Kop == FUNCTION:
         s = z3.SetAdd(z3.EmptySet(Node), pl_node(t))
         for a in args_:
@@ -483,7 +464,10 @@ def shallow_facts(n):
     t = type_of(n)
     isin = lambda ops: z3.Or([o == k for k in ops])
     return [
+        val(n) == ev(semf(n)),
+        z3.IsSubset(dep(semf(n)), fv(n)),          # coincidence law
         o >= 0, o < NOPS,
+        o != ALGEBRAIC_CONSTANT,      # needs the z3 bindings, absent here: not covered (listed assumption)
         t != NoneT,
         valid_type(t),
         in_domain(val(n), t),
@@ -510,77 +494,145 @@ def _seq(vals):
 # --------------------------------------------------------------------------
 # lemma library (explicitly instantiated; see DESIGN 3.4)
 # --------------------------------------------------------------------------
-def arith_lemmas(rounds=2):
-    """Instances of the pow2 / bit-wise lemmas for the terms created on this
-    path (sorts.Tracked records every application)."""
+_LEMMA_CACHE = {}
+_DERIVED = set()
+
+
+def _cached(key, build):
+    c = _LEMMA_CACHE.get(key)
+    if c is None:
+        j0 = len(JOURNAL)
+        facts = build()
+        c = (facts, list(JOURNAL[j0:]))
+        _LEMMA_CACHE[key] = c
+    else:
+        _sorts.replay_tracking(c[1])
+    return c[0]
+
+
+def _pow2_single(p):
+    e = p.arg(0)
+    new = [p >= 1, z3.Implies(e >= 0, p >= e + 1), z3.Implies(e <= 0, p == 1)]
+    if z3.is_int_value(e):
+        c = e.as_long()
+        if 0 <= c <= 4096:
+            new.append(p == (1 << c))
+    elif p.get_id() not in _DERIVED:
+        q = pow2(e - 1)
+        _DERIVED.add(q.get_id())
+        new.append(z3.Implies(e >= 1, p == 2 * q))
+    if z3.is_add(e) and e.num_args() == 2:
+        a, b = e.arg(0), e.arg(1)
+        if not (z3.is_int_value(a) or z3.is_int_value(b)):
+            new.append(z3.Implies(z3.And(a >= 0, b >= 0), p == pow2(a) * pow2(b)))
+    if z3.is_sub(e) and e.num_args() == 2:
+        a, b = e.arg(0), e.arg(1)
+        new.append(z3.Implies(z3.And(a >= b, b >= 0), pow2(a) == p * pow2(b)))
+    return new
+
+
+def _pow2_pair(p, q):
+    a, b = p.arg(0), q.arg(0)
+    if z3.is_int_value(a) and z3.is_int_value(b):
+        return []
+    return [z3.Implies(z3.And(a >= 0, a < b), 2 * p <= q),
+            z3.Implies(z3.And(b >= 0, b < a), 2 * q <= p),
+            z3.Implies(a == b, p == q)]
+
+
+def _bit_single(nm, f, e):
+    a, b = e.arg(0), e.arg(1)
+    nonneg = z3.And(a >= 0, b >= 0)
+    new = [z3.Implies(nonneg, e >= 0), e == f.f(b, a)]
+    if nm == "band":
+        new += [z3.Implies(nonneg, z3.And(e <= a, e <= b)), z3.Implies(a == 0, e == 0), z3.Implies(b == 0, e == 0),
+                z3.Implies(a == b, e == a)]
+    elif nm == "bor":
+        new += [z3.Implies(nonneg, z3.And(e >= a, e >= b, e <= a + b)), z3.Implies(a == 0, e == b),
+                z3.Implies(b == 0, e == a), z3.Implies(a == b, e == a)]
+    else:
+        new += [z3.Implies(nonneg, e <= a + b), z3.Implies(a == 0, e == b), z3.Implies(b == 0, e == a),
+                z3.Implies(a == b, e == 0)]
+    return new
+
+
+def _bit_pow(nm, e, p):
+    a, b = e.arg(0), e.arg(1)
+    w = p.arg(0)
+    nonneg = z3.And(a >= 0, b >= 0)
+    new = [z3.Implies(z3.And(nonneg, w >= 0, a < p, b < p), e < p)]
+    for x, y in ((a, b), (b, a)):
+        if nm == "band":
+            new.append(z3.Implies(z3.And(w >= 0, x == p - 1, y >= 0, y < p), e == y))
+        if nm == "bor":
+            new.append(z3.Implies(z3.And(w >= 0, x == p - 1, y >= 0, y < p), e == x))
+        if nm == "bxor":
+            new.append(z3.Implies(z3.And(w >= 0, x == p - 1, y >= 0, y < p), e == p - 1 - y))
+    return new
+
+
+def arith_lemmas(done):
+    """New instances of the pow2 / bit-wise lemmas for the terms created on this
+    path since the last call (`done`: per-path set of instance keys)."""
     out = []
-    done = set()
-    for _ in range(rounds):
-        new = []
+    for _ in range(2):
+        n0 = len(out)
         for p in list(pow2.apps.values()):
-            if p.get_id() in done:
-                continue
-            done.add(p.get_id())
-            e = p.arg(0)
-            new.append(p >= 1)
-            new.append(z3.Implies(e >= 0, p >= e + 1))
-            new.append(z3.Implies(e <= 0, p == 1))     # convention below 0; specs never use it
-            if z3.is_int_value(e):
-                c = e.as_long()
-                if 0 <= c <= 4096:
-                    new.append(p == (1 << c))
-            else:
-                new.append(z3.Implies(e >= 1, p == 2 * pow2(e - 1)))
-            if z3.is_add(e) and e.num_args() == 2:
-                a, b = e.arg(0), e.arg(1)
-                new.append(z3.Implies(z3.And(a >= 0, b >= 0), p == pow2(a) * pow2(b)))
-            if z3.is_sub(e) and e.num_args() == 2:
-                a, b = e.arg(0), e.arg(1)
-                new.append(z3.Implies(z3.And(a >= b, b >= 0), pow2(a) == p * pow2(b)))
-        ps2 = list(pow2.apps.values())
-        for i, p in enumerate(ps2):
-            for q in ps2[i + 1:]:
-                key = (min(p.get_id(), q.get_id()), max(p.get_id(), q.get_id()))
-                if key in done:
-                    continue
-                done.add(key)
-                a, b = p.arg(0), q.arg(0)
-                if z3.is_int_value(a) and z3.is_int_value(b):
-                    continue
-                new.append(z3.Implies(z3.And(a >= 0, a < b), 2 * p <= q))
-                new.append(z3.Implies(z3.And(b >= 0, b < a), 2 * q <= p))
-                new.append(z3.Implies(a == b, p == q))
+            k = ("p", p.get_id())
+            if k not in done:
+                done.add(k)
+                out += _cached(k + (p,), lambda: _pow2_single(p))
+        ps = list(pow2.apps.values())
+        loud = [p for p in ps if p.get_id() not in pow2.quiet_ids]
+        for i, p in enumerate(loud):
+            for q in loud[i + 1:]:
+                k = ("pp", min(p.get_id(), q.get_id()), max(p.get_id(), q.get_id()))
+                if k not in done:
+                    done.add(k)
+                    out += _cached(k + (p, q), lambda: _pow2_pair(p, q))
         for nm, f in (("band", band), ("bor", bor), ("bxor", bxor)):
             for e in list(f.apps.values()):
-                if e.get_id() in done:
-                    continue
-                done.add(e.get_id())
-                a, b = e.arg(0), e.arg(1)
-                nonneg = z3.And(a >= 0, b >= 0)
-                new.append(z3.Implies(nonneg, e >= 0))
-                new.append(e == f.f(b, a))
-                if nm == "band":
-                    new.append(z3.Implies(nonneg, z3.And(e <= a, e <= b)))
-                    new.append(z3.Implies(a == 0, e == 0))
-                    new.append(z3.Implies(a == b, e == a))
-                elif nm == "bor":
-                    new.append(z3.Implies(nonneg, z3.And(e >= a, e >= b, e <= a + b)))
-                    new.append(z3.Implies(a == 0, e == b))
-                    new.append(z3.Implies(a == b, e == a))
-                else:
-                    new.append(z3.Implies(nonneg, e <= a + b))
-                    new.append(z3.Implies(a == 0, e == b))
-                    new.append(z3.Implies(a == b, e == 0))
-                for p in ps2:
-                    w = p.arg(0)
-                    new.append(z3.Implies(z3.And(nonneg, w >= 0, a < p, b < p), e < p))
-                    if nm == "band":
-                        new.append(z3.Implies(z3.And(w >= 0, a == p - 1, b >= 0, b < p), e == b))
-                    if nm == "bor":
-                        new.append(z3.Implies(z3.And(w >= 0, a == p - 1, b >= 0, b < p), e == a))
-                    if nm == "bxor":
-                        new.append(z3.Implies(z3.And(w >= 0, a == p - 1, b >= 0, b < p), e == p - 1 - b))
-        if not new:
+                k = (nm, e.get_id())
+                if k not in done:
+                    done.add(k)
+                    out += _cached(k + (e,), lambda: _bit_single(nm, f, e))
+                for p in loud:
+                    k = (nm, e.get_id(), p.get_id())
+                    if k not in done:
+                        done.add(k)
+                        out += _cached(k + (e, p), lambda: _bit_pow(nm, e, p))
+        if len(out) == n0:
             break
-        out.extend(new)
+    return out
+
+
+def array_axioms(done):
+    """Read-over-write instances for the AV terms created on this path."""
+    stores = list(astore.apps.values())
+    consts = list(acst.apps.values())
+    sels = list(asel.apps.values())
+    out = []
+    idxs = {}
+    for s in stores:
+        idxs[s.arg(1).get_id()] = s.arg(1)
+    for s in sels:
+        idxs[s.arg(1).get_id()] = s.arg(1)
+    idxs = list(idxs.values())[:8]
+    for s in stores:
+        a, i, v = s.arg(0), s.arg(1), s.arg(2)
+        k = ("st", s.get_id())
+        if k not in done:
+            done.add(k)
+            out.append(asel.f(s, i) == v)
+        for j in idxs:
+            k = ("stj", s.get_id(), j.get_id())
+            if k not in done and not j.eq(i):
+                done.add(k)
+                out.append(z3.Implies(j != i, asel.f(s, j) == asel.f(a, j)))
+    for c in consts:
+        for j in idxs:
+            k = ("cj", c.get_id(), j.get_id())
+            if k not in done:
+                done.add(k)
+                out.append(asel.f(c, j) == c.arg(0))
     return out
